@@ -4,7 +4,7 @@ import concurrent.futures
 
 def run(ctx):
     ctx.regen_go2lean()
-    ctx.lean_obligations(["SV.Props.C04", "SV.Props.C04gen"], drivers=["svdriver_c04"])
+    ctx.lean_obligations(["SV.Props.C04", "SV.Props.C04gen", "SV.Props.C04gen2"], drivers=["svdriver_c04"])
     quick = ctx.tier == "quick"
     # No pins on the text of /repo: everything the model assumes about the code is observed on the
     # running code.  The footer sizes are read through FooterSize() and compared with the model's
